@@ -44,7 +44,7 @@ CLAIMED = {
        "run (30 on the pinned tree) x 4 constraint kinds: getter = constraint.transform(raw) (hence inside the bounds after any history), "
        "public setter reads back the value, writes only the raw parameter and keeps the parameter cell, verified modularly against the "
        "constraint contracts and the real Module.initialize; every register_prior closure pair reads / stores the constrained value; "
-       "SmoothedBoxPrior and HorseshoePrior log densities equal the documented formulas per batch element. Bounded tier (not counted): "
+       "SmoothedBoxPrior and HorseshoePrior log densities equal the documented formulas per batch element. Module.initialize with the constraint's verdict as callee contract: accepted values are stored in the same Parameter cell, a rejected assignment raises RuntimeError and leaves the parameter's values unchanged. Bounded tier (not counted): "
        "float32/float64 saturation over the whole finite range, setter round trips across magnitudes on real modules, rejection of "
        "out-of-bounds values, reference densities (scipy), normalisation by numerical integration.",
   design_ref="DESIGN.md section 5, C17",
@@ -78,7 +78,7 @@ CLAIMED = {
        "and z3 discharges value = (1/B) sum_i l_i - (beta/N) KL + (1/N) sum log priors - sum added losses (and the exact four terms for "
        "combine_terms=False), that the documented per-point term (expected_log_prob resp. log_marginal) is the one used with (y, q(f)), and "
        "that each prior closure is evaluated on its owning module; NGD.step performs p <- p - lr*N*grad on exactly the parameters that have "
-       "a gradient. The callees are represented by their contracts (C12/C13: what l_i is; C14: KL). Bounded tier (not counted): N*ELBO <= "
+       "a gradient. The callees are represented by their contracts (C12/C13: what l_i is; C14: KL). For a multitask q(f) (event shape (B, T)) the likelihood term is averaged over the B points, not the T tasks; the Cholesky-derivative helper of the natural-gradient backward is Phi(A) for every batch element (C19 contract, shared). Bounded tier (not counted): N*ELBO <= "
        "exact evidence for random q(u), one NGD step of size one reaches the collapsed (Titsias) bound and zero natural gradient there "
        "(batch shapes () and (3,)), collapsed bound <= evidence, minibatch scaling.",
   design_ref="DESIGN.md section 5, C15",
@@ -170,7 +170,7 @@ CLAIMED = {
        "(sums over the input dimension as binder-free sum atoms normalised by linearity), exact output shape, diag branch == the diagonal; "
        "Kernel.__add__ / __mul__ with their flattening (operands leaf / sum / product, all nine combinations) evaluate to the sum / product "
        "of the operands' values; the polynomial factor of the piecewise polynomial kernel (q = 0..3) equals Rasmussen & Williams eq. 4.21. "
-       "Bounded tier (not counted): a float64 oracle sweep over EVERY kernel exported by gpytorch.kernels (CPU) against independent "
+       "Derivative kernels in the interleaved layout, for symbolic n1, n2 and concrete input dimension d in {1, 2} (the block assembly by slice assignment, reshapes, repeats and the perfect-shuffle gather are executed symbolically; index conditions are resolved against the integer part of the path condition): PolynomialKernelGrad (powers 2, 3) value / both gradients / mixed second derivatives = the derivatives of (x1.x2 + c)^p; RBFKernelGrad (isotropic and ARD, x1 != x2) = k, u_a k, -u_a k, ([a == e]/l_a^2 - u_a u_e) k with u_a = (x1_a - x2_a)/l_a^2 (identities closed by the CAS). Bounded tier (not counted): a float64 oracle sweep over EVERY kernel exported by gpytorch.kernels (CPU) against independent "
        "re-implementations of the documented formulas, and the derivative kernels (RBF-grad, Matern-5/2-grad, polynomial-grad powers 1..4, "
        "RBF-grad-grad) against autograd derivatives of the base kernel in the interleaved layout, n1 != n2, d in {1,2,3}, batch shapes () / (2,).",
   design_ref="DESIGN.md section 5, C05",
@@ -190,7 +190,7 @@ CLAIMED = {
        "shapes, multi-output factors and last_dim_is_batch; _transpose_nonbatch, _unsqueeze_batch, repeat; Kernel.__call__: the inputs handed to "
        "forward / to the lazy tensor are exactly the active_dims columns of x1 and x2 (x2 = x1 when omitted, 1-d inputs become columns), diag=True "
        "returns forward's diagonal, lazy and eager modes wrap the same (inputs, kernel); (k1 + ... + kn)[idx] and the product form build a NEW "
-       "composite of the indexed parts and leave the source untouched (deepcopy modelled structurally). Bounded tier (not counted): exhaustive "
+       "composite of the indexed parts and leave the source untouched (deepcopy modelled structurally). Kernel.__call__(diag=True) on a kernel of batch shape (B,) with unbatched inputs returns the (B, n) diagonals for every B and n (B == n included), also when forward ignores the diag flag. Bounded tier (not counted): exhaustive "
        "index expressions (ints, slices over 11 bounds x 3 steps, index tensors, batch indices, Ellipsis) on 8 kernels incl. multitask, derivative "
        "and a (2, 1)-output kernel, diag / transpose / lazy-vs-eager / stacked blocks / repeat / unsqueeze, active_dims incl. kernel[i] and expand_batch.",
   design_ref="DESIGN.md section 5, C06",
@@ -255,7 +255,7 @@ CLAIMED = {
        "arguments (addmm alpha/beta honoured), a zero operator of the test size under skip_posterior_variances; with fast_pred_var on, K** - (K*x R)(K*x R)^T "
        "for the inverse root R the dependency returns (R R^T = (Kxx + S)^-1 as callee contract), remembering the test-train block; ExactGP.__call__ in evaluation mode "
        "builds the strategy once from forward(train inputs), labels and likelihood, evaluates forward on cat([train, test]) and returns the "
-       "joint's class of (mean, covariance). 'The likelihood adds exactly the observation noise' is C12's contract. Bounded tier (not counted): "
+       "joint's class of (mean, covariance). 'The likelihood adds exactly the observation noise' is C12's contract. ExactGP.set_train_data stores the new tensors and drops the prediction strategy for every combination of inputs / targets (C03 contract, shared). Bounded tier (not counted): "
        "dense float64 conditional vs model(x*) and likelihood(model(x*)) for 6 likelihood families x 6 kernels x 3 means, n in {1,2,7}, 10 batch "
        "configurations, 92 combinations of the prediction-relevant settings (lazy / eager, eager-size threshold, Cholesky / CG / root paths, "
        "fast_pred_var, detach_test_caches, skip_posterior_variances), repeated predictions on one object.",
@@ -372,7 +372,7 @@ CLAIMED = {
        "_cached_kernel_inv_root), GridKernel (_cached_kernel_mat) and variational strategies (memoised prior / Cholesky factor) followed by the "
        "delegation to torch with the same arguments, GridKernel.update_grid (new grid buffers installed, cached K_UU dropped in interpolation mode "
        "too, full grid rebuilt otherwise), and the training-mode entry of _VariationalStrategy.__call__ (memoised values dropped before use; kept in "
-       "evaluation mode). Bounded tier (not counted): ALL histories of length <= 2-3 (quick) / 3-4 plus 200 sampled longer ones (thorough) over "
+       "evaluation mode). Also: a variational strategy built without an explicit jitter reads settings.variational_cholesky_jitter at every access and the read writes nothing on the strategy (settings are read at call time); InducingPointKernel caches are filled by the real getters and dropped by load (name-agnostic). Bounded tier (not counted): ALL histories of length <= 2-3 (quick) / 3-4 plus 200 sampled longer ones (thorough) over "
        "{predict under two settings, train/eval switch, optimiser step, set_train_data (inputs / targets / both), load_state_dict, get_fantasy_model, "
        "prior-mode call, backward through a non-detached prediction} for exact GPs (default, KISS-GP fixed and data-determined grid, SGPR) and "
        "variational GPs (whitened, unwhitened): next prediction vs a freshly constructed model with the same state and vs a dense oracle.",
@@ -392,7 +392,7 @@ CLAIMED = {
        "VariationalStrategy.__init__ register the inducing points as parameter or buffer as requested (a clone of the argument) and the "
        "initialisation flags variational_params_initialized (= 0) / updated_strategy as buffers; Module._load_from_state_dict drops the caches of "
        "ExactGP / InducingPointKernel / GridKernel / variational strategies before delegating to torch; a deep copy of a prediction strategy is None. "
-       "Bounded tier (not counted): 49 model families (exact with a spread of kernels / constraints / priors, SGPR, KISS-GP, RFF, GridKernel, every "
+       "Interval.transform / inverse_transform read no unregistered tensor state of the constraint (read footprint recorded during symbolic execution), so a state_dict round trip reproduces the hyperparameter values. Bounded tier (not counted): 49 model families (exact with a spread of kernels / constraints / priors, SGPR, KISS-GP, RFF, GridKernel, every "
        "variational strategy x distribution, multitask, model lists) x 5 save points of a train / eval / predict history x 6 mechanisms (state_dict "
        "into a fresh identical / differently constructed / already-used model, through a plain nn.Module holder, pickle, deepcopy): prior, "
        "predictive mean / covariance, objective and its gradient, every state_dict entry, independence of copies.",
